@@ -7,6 +7,8 @@ import vlib
 from props import fam_map as F
 
 
+MANIFEST = {'technique': 'Coq proof (C remainder/index lemmas for all integers, set-up permutation for all headers/axis orders/extents, scaled operations in range for all table rows and compatible grid sizes) + exact differential check + oracles on gemmi', 'text': 'Theorems: modulo a n = a mod n for every a (n > 0) with C remainder semantics; index_n exact on [-n, 2n) and wrong outside it; index_s total; for all 564 rows of the regenerated table and EVERY grid size accepted by check_grid_factors each scaled operation maps in-grid points into [-n, 2n) (kernel-evaluated checker, soundness proved for all sizes and points); axis_positions accepts exactly the six permutations; in all three set-up modes, for each axis order, any start and any extent, file voxel (c,r,s) lands at grid[(start+crs) permuted mod sampling] and uncovered voxels hold the default - hence the axis order of the file does not change the map. Exact correspondence on all rows (grid factors, scaled operations, written header words), hand-made files in 6 axis orders x modes 0/1/2/6 x 2 byte orders x 3 set-up modes; oracles on gemmi: write->read identity (file, memory, other byte order), permuted / ASU-box files expand to the invariant full grid, ASU mask marks one point per orbit, every symmetrize_* makes the grid invariant and is idempotent. NOT theorems (oracle only): orbit fill, idempotence/invariance of the symmetrisation functions, ASU mask, float header words.', 'note': 'Trusted: Coq kernel + vm_compute; table translator; extraction; harness. No axioms. Voxel values are small integers (exact in every mode); find_asu_brick is not re-implemented (its result is an input of the mask model).'}
+
 def gen_cases(rng, h, info, quick):
     lines = []
     # ---- index arithmetic, aimed at the case-split boundaries of modulo / index_n
